@@ -95,7 +95,7 @@ pub fn gen(r: &mut Rng) -> Value {
         lines.push(json!({"label": label, "out": out, "kind": kind, "val": val, "target": target, "via_alias": r.chance(1, 5)}));
     }
     // (sometimes the embedder's flag is already up when the run starts)
-    json!({"lines": lines, "on_error": r.below(4), "fuel": 40, "prehalt": r.chance(1, 12), "as_file": r.chance(1, 4)})
+    json!({"lines": lines, "on_error": r.below(4), "fuel": 40, "prehalt": r.chance(1, 12), "as_file": r.chance(1, 4), "env_mode": r.below(3)})
 }
 
 fn upd(vars: &mut BTreeMap<String, String>, out: &Option<String>, v: Option<String>) {
@@ -293,19 +293,22 @@ pub fn run(input: &Value) -> Option<Value> {
         context.commands.set(Box::new(T { trace: tr.clone(), name: "on_error".to_string(), aliases: if on_error == 3 { vec!["with_value".to_string()] } else { vec![] } })).ok()?;
     }
     let halt = Arc::new(AtomicBool::new(prehalt));
-    let env = Env::new(None, None, Some(halt.clone()));
+    // who else holds the flag: 0 = the embedder keeps its handle for the whole run, 1 = the flag is handed over (the
+    // runtime holds the only handle; a command raises it through context.env.halt), 2 = no flag given (the environment creates its own)
+    let env_mode = if prehalt { 0 } else { input["env_mode"].as_u64().unwrap_or(0) };
+    let env = match env_mode { 0 => Some(Env::new(None, None, Some(halt.clone()))), 1 => Some(Env::new(None, None, Some(Arc::new(AtomicBool::new(false))))), _ => Some(Env::new(Some(Box::new(std::io::sink())), Some(Box::new(std::io::sink())), None)) };
     let res = if input["as_file"].as_bool().unwrap_or(false) {
         // the same script given as a file: same invocations, same outcome, same failing line
         let p = file_path.clone();
         std::fs::write(&p, &script).ok()?;
-        let r = runner::run_script_file(&p.to_string_lossy(), context, Some(env));
+        let r = runner::run_script_file(&p.to_string_lossy(), context, env);
         let _ = std::fs::remove_file(&p);
         r
     } else {
-        runner::run_script(&script, context, Some(env))
+        runner::run_script(&script, context, env)
     };
     // the flag belongs to the embedder (it may be shared with other runs): the run only reads it
-    if halt.load(Ordering::SeqCst) != halted {
+    if env_mode == 0 && halt.load(Ordering::SeqCst) != halted {
         return Some(json!({"script": script, "what": "the run changed the embedder's halt flag", "model": halted, "real": halt.load(Ordering::SeqCst)}));
     }
     let real_trace = tr.lock().unwrap().clone();
